@@ -53,6 +53,7 @@ type Ctx struct {
 	escMemo        *bool
 	lcMemo         *bool
 	fsMemo         map[string]bool
+	cfgMemo        *bool
 }
 
 // LoadOpts selects the build configuration and an optional overlay.
